@@ -71,7 +71,7 @@ class C02(Prop):
             'whose inverse worker is not rank 0, for k < W some rank that is a pure receiver, and >= 1 rank switch inside a step.')
     assumptions = ['vkit/simdist reproduces gloo semantics for all_reduce/broadcast/new_group (validated against real gloo in the thorough tier of this check)',
                    'equal per-rank batch sizes and gradients averaged across ranks before step() (the documented data-parallel precondition)',
-                   'relations 3 and 4 are decided up to 64 sqrt(n) eps32 kappa accumulated over steps; cases looser than 5e-2 count as trivial for them']
+                   'relations 3 and 4 are decided up to 16 sqrt(n) eps32 kappa accumulated over steps; cases looser than 5e-2 count as trivial for them']
     examples = {'quick': 50, 'thorough': 400}
     shards = {'quick': 4, 'thorough': 16}
     shrink_budget_s = {'quick': 30.0, 'thorough': 180.0}
